@@ -67,6 +67,20 @@ type loopInput struct {
 	M    string `json:"m"` // the model input this corresponds to for a loop with one broadcast and one write per iteration
 }
 
+// logSpec: one log of one Ethereum transaction.  The receipt of transaction Tx holds all logs with that Tx, in order.
+type logSpec struct {
+	Block   int64  `json:"b"`
+	Tx      int64  `json:"tx"`
+	Foreign bool   `json:"f"` // emitted by another contract than the bridge bank (never returned by the address-filtered eth_getLogs)
+	Topic   int    `json:"t"` // 0 LogLock, 1 LogBurn, 2 some other event
+	From    string `json:"from"`
+	To      string `json:"to"` // hex of the recipient bytes
+	Token   string `json:"token"`
+	Symbol  string `json:"sym"`
+	Value   string `json:"value"`
+	Nonce   string `json:"nonce"`
+}
+
 func (i loopInput) String() string {
 	if i.Kind == "x" {
 		return "x"
@@ -106,6 +120,8 @@ type loopSpec struct {
 	Inputs []loopInput `json:"inputs"`
 	Start  int         `json:"start"` // index of the first input this child plays
 	SlowMs int         `json:"slowms"` // how long a "slow" log query is held back
+	Logs   []logSpec   `json:"logs"`   // explicit transactions/logs (family relaylogs); if set, Place is not used
+	Full   bool        `json:"full"`   // record the full content of every broadcast claim ("F" lines)
 }
 
 // placeLine: `nonce@block` for a good event, `nonce!block` for an unconvertible one (ignored by the judge: the
@@ -148,6 +164,7 @@ type childState struct {
 	lastIO   int64
 	putsIter int // cursor writes observed since the header of this iteration
 	stash    []string
+	lastFull string // full content of the claims of the last broadcast
 	bank     common.Address
 	registry common.Address
 	events   chan string        // loop observations: "getlogs lo hi", "account", "broadcast n1,n2", "log <message>"
@@ -251,15 +268,32 @@ func (e *fakeEth) GetLogs(arg filterArg) ([]ctypes.Log, error) {
 	case "fail":
 		return nil, fmt.Errorf("scripted log query failure")
 	}
+	if len(e.c.spec.Logs) > 0 {
+		var logs []ctypes.Log
+		for _, l := range e.c.explicitLogs() {
+			if l.Address == e.c.bank && int64(l.BlockNumber) >= lo.Int64() && int64(l.BlockNumber) <= hi.Int64() {
+				logs = append(logs, l)
+			}
+		}
+		return logs, nil
+	}
+	logs := e.c.placeLogs(lo.Int64(), hi.Int64())
+	// a non-bridge log of the same contract, to exercise the "not burn or lock" path
+	logs = append(logs, ctypes.Log{Address: e.c.bank, Topics: []common.Hash{common.BigToHash(big.NewInt(7))}, Data: []byte{}, BlockNumber: uint64(lo.Int64())})
+	return logs, nil
+}
+
+// placeLogs: the bridge-bank logs of the scripted placement in blocks lo..hi, one transaction per event
+func (c *childState) placeLogs(lo, hi int64) []ctypes.Log {
 	var logs []ctypes.Log
 	bankABI := contract.LoadABI(txs.BridgeBank)
 	ev := bankABI.Events["LogLock"]
 	badKind := map[int64]int64{}
-	for _, b := range e.c.spec.Bad {
+	for _, b := range c.spec.Bad {
 		badKind[b[0]] = b[1] + 1
 	}
-	for _, p := range e.c.spec.Place {
-		if p[1] < lo.Int64() || p[1] > hi.Int64() {
+	for _, p := range c.spec.Place {
+		if p[1] < lo || p[1] > hi {
 			continue
 		}
 		var from common.Address
@@ -291,12 +325,63 @@ func (e *fakeEth) GetLogs(arg filterArg) ([]ctypes.Log, error) {
 		if err != nil {
 			panic(err)
 		}
-		logs = append(logs, ctypes.Log{Address: e.c.bank, Topics: []common.Hash{ev.ID}, Data: data, BlockNumber: uint64(p[1]),
+		logs = append(logs, ctypes.Log{Address: c.bank, Topics: []common.Hash{ev.ID}, Data: data, BlockNumber: uint64(p[1]),
 			TxHash: common.BigToHash(big.NewInt(p[0])), Index: uint(len(logs))})
 	}
-	// a non-bridge log of the same contract, to exercise the "not burn or lock" path
-	logs = append(logs, ctypes.Log{Address: e.c.bank, Topics: []common.Hash{common.BigToHash(big.NewInt(7))}, Data: []byte{}, BlockNumber: uint64(lo.Int64())})
-	return logs, nil
+	return logs
+}
+
+// explicitLogs renders spec.Logs: every log of every transaction, bridge bank's and foreign ones, in chain order.
+func (c *childState) explicitLogs() []ctypes.Log {
+	bankABI := contract.LoadABI(txs.BridgeBank)
+	foreign := common.HexToAddress("0xF0F0F0F0F0F0F0F0F0F0F0F0F0F0F0F0F0F0F0F0")
+	var logs []ctypes.Log
+	for i, l := range c.spec.Logs {
+		addr := c.bank
+		if l.Foreign {
+			addr = foreign
+		}
+		lg := ctypes.Log{Address: addr, BlockNumber: uint64(l.Block), TxHash: common.BigToHash(big.NewInt(l.Tx)), Index: uint(i), Data: []byte{}}
+		if l.Topic == 2 {
+			lg.Topics = []common.Hash{common.BigToHash(big.NewInt(7))}
+		} else {
+			ev := bankABI.Events[[]string{"LogLock", "LogBurn"}[l.Topic]]
+			to, err := hex.DecodeString(l.To)
+			if err != nil {
+				panic(err)
+			}
+			value, _ := new(big.Int).SetString(l.Value, 10)
+			nonce, _ := new(big.Int).SetString(l.Nonce, 10)
+			data, err := ev.Inputs.Pack(common.HexToAddress(l.From), to, common.HexToAddress(l.Token), l.Symbol, value, nonce)
+			if err != nil {
+				panic(err)
+			}
+			lg.Topics, lg.Data = []common.Hash{ev.ID}, data
+		}
+		logs = append(logs, lg)
+	}
+	return logs
+}
+
+// GetTransactionReceipt serves the receipt of a transaction with ALL its logs (the unchanged loop never asks).
+func (e *fakeEth) GetTransactionReceipt(hash common.Hash) (*ctypes.Receipt, error) {
+	r := &ctypes.Receipt{Status: ctypes.ReceiptStatusSuccessful, TxHash: hash, CumulativeGasUsed: 21000, GasUsed: 21000, Logs: []*ctypes.Log{}}
+	all := e.c.explicitLogs()
+	if len(e.c.spec.Logs) == 0 {
+		all = e.c.placeLogs(0, 1<<62)
+		all = append(all, ctypes.Log{Address: e.c.bank, Topics: []common.Hash{common.BigToHash(big.NewInt(7))}, Data: []byte{}})
+	}
+	for i := range all {
+		if all[i].TxHash == hash {
+			l := all[i]
+			r.Logs = append(r.Logs, &l)
+			r.BlockNumber = new(big.Int).SetUint64(l.BlockNumber)
+		}
+	}
+	if len(r.Logs) == 0 {
+		return nil, nil // unknown transaction
+	}
+	return r, nil
 }
 
 func (e *fakeEth) NewHeads(ctx context.Context) (*rpc.Subscription, error) {
@@ -349,14 +434,16 @@ func (f *fakeTM) claimsOf(txb tmtypes.Tx) string {
 	if err != nil {
 		panic(err)
 	}
-	var ns []string
+	var ns, full []string
 	for _, m := range t.GetMsgs() {
 		cm, ok := m.(*ethbridge.MsgCreateEthBridgeClaim)
 		if !ok {
 			panic("unexpected message type in relayed tx")
 		}
 		ns = append(ns, fmt.Sprint(cm.EthBridgeClaim.Nonce))
+		full = append(full, strings.Join(claimFields(*cm.EthBridgeClaim), " "))
 	}
+	f.c.lastFull = strings.TrimSpace(fmt.Sprintf("F %d %s", len(full), strings.Join(full, " ")))
 	if len(ns) == 0 {
 		return "-"
 	}
@@ -681,6 +768,9 @@ func runLoopChild(specPath string) {
 				if graceful && in.Out[1] == '2' {
 					stop()
 				}
+				if spec.Full {
+					c.record(c.lastFull)
+				}
 				if ns := strings.TrimPrefix(ev, "broadcast "); ns != "-" {
 					c.record("C " + ns) // (a transaction without claims — every event of the range refused — carries nothing)
 				}
@@ -730,6 +820,8 @@ type loopCase struct {
 	place  [][2]int64
 	bad    [][2]int64 // (nonce, kind) of the unconvertible events among place
 	inputs []loopInput
+	logs   []logSpec // explicit transactions (family relaylogs)
+	full   bool
 }
 
 // addBadEvents mixes unconvertible events into ranges that hold good ones: right before / after a good event of
@@ -808,7 +900,7 @@ func runLoopCase(id int, lc loopCase, workdir string) (string, error) {
 		return "", err
 	}
 	for round := 0; round < 40; round++ {
-		spec := loopSpec{T: 50, DBDir: dbdir, Log: logp, Place: lc.place, Bad: lc.bad, Inputs: lc.inputs, Start: start, SlowMs: 26000}
+		spec := loopSpec{T: 50, DBDir: dbdir, Log: logp, Place: lc.place, Bad: lc.bad, Inputs: lc.inputs, Start: start, SlowMs: 26000, Logs: lc.logs, Full: lc.full}
 		sp := filepath.Join(dir, fmt.Sprintf("spec%d.json", round))
 		b, _ := json.Marshal(spec)
 		if err := os.WriteFile(sp, b, 0o644); err != nil {
